@@ -32,6 +32,20 @@ def make_cases(rng, order, tier, maxl):
                     cases.append({"id": "d%d_%d_%d_%d_%s_%d" % (order, LA, LB, lam, gk.replace("=", ""), n),
                                   "extra": {"order": order, "geom": gk}, "shells": [sa, sb], "ecps": [u]})
                     n += 1
+    # two shells on one centre that share their exponents: identical shells (a true diagonal pair) and
+    # general contractions (same exponents, non-proportional coefficients), both off and on the ECP centre
+    for k in range(10 if tier == "quick" else 60):
+        L_ = rng.randint(0, lim)
+        gk = rng.choice(["A=B", "A=B", "A=B=C"])
+        A, B, C = gen.geometry(rng, gk)
+        sa = gen.rand_shell(rng, L_, A, nprim=rng.randint(2, 3))
+        sb = dict(sa, c=list(A))
+        if k % 2 == 0:
+            sb["d"] = [rng.uniform(0.2, 1.5) * rng.choice([1, -1]) for _ in sa["d"]]      # general contraction
+        else:
+            sb["d"] = list(sa["d"])                                                        # identical shell
+        cases.append({"id": "d%d_gc_%d" % (order, k), "extra": {"order": order, "geom": "same-centre-shared-exponents"},
+                      "shells": [sa, sb], "ecps": [gen.rand_ecp(rng, rng.randint(0, 2), C, nper=(1, 1))]})
     # near-threshold geometries: L1 distance on both sides of 1e-6 (decision of the coincidence branches)
     for k in range(6 if tier == "quick" else 30):
         LA, LB = rng.randint(0, lim), rng.randint(0, lim)
